@@ -408,6 +408,13 @@ objx.page {n:#} fields_mask:# title:string tags:fields_mask.0?(tuple string n) b
 objx.doc n:# body:(objx.block n) = objx.Doc;
 objx.book n:# page:(objx.page n) = objx.Book;
 objx.grid rows:# cols:# cells:(tuple (tuple int cols) rows) = objx.Grid;
+// boxed / bare True, Bool and boxed user types under external and local field masks (TL1 writes a tag for the boxed ones)
+objx.stats {m:#} marker:m.1?True value:m.2?int flag:m.3?Bool w:m.4?objx.Doc bt:m.5?%True lt:m.0?true total:int = objx.Stats m;
+objx.flags m:# a:m.0?True b:m.1?true c:m.2?Bool d:m.3?%True e:m.4?objx.Doc x:int f:m.5?True = objx.Flags;
+// nat-dependent element types inside dictionaries (Go maps), vectors, tuples, Maybe (C09: absent JSON fields)
+objx.natDict n:# tags:%(Dictionary int) d:%(Dictionary %(Tuple int n)) = objx.NatDict;
+objx.natAll n:# m:# k:# v:(vector (tuple int n)) t:(tuple (tuple string m) n) mb:(Maybe (tuple int n)) d:%(Dictionary %(Tuple int n))
+    it:(vector (objx.item k)) st:(objx.stats k) s:string = objx.NatAll;
 
 ---functions---
 @read objx.getTuple n:# = Tuple int n;
@@ -420,14 +427,24 @@ objx.grid rows:# cols:# cells:(tuple (tuple int cols) rows) = objx.Grid;
 @read objx.getPages x:int n:# m:# = Tuple (objx.Page n) m;
 @read objx.getBlocks n:# m:# = Vector (Tuple (objx.Block m) n);
 @read objx.getMaybeRow n:# m:# = Maybe (Tuple (Tuple string m) n);
+@read objx.getStats fields_mask:# = objx.Stats fields_mask;
+@read objx.getStatsReq fields_mask:# mark:fields_mask.0?True b:fields_mask.1?Bool w:fields_mask.2?objx.Flags t:fields_mask.3?%True = objx.Stats fields_mask;
+@read objx.getFlags x:int = objx.Flags;
+@read objx.getStatsTuple m:# n:# = Tuple (objx.Stats m) n;
+@read objx.getStatsVec x:int m:# = Vector (objx.Stats m);
+@read objx.getNatDict n:# = objx.NatDict;
+@read objx.getDictOf n:# = Dictionary (Tuple int n);
 """
 
 
 def objx_random_schema(rng, ns="ox"):
     """random supplement: wide structs (8..20 plain fields) and functions with nested, permuted nat arguments"""
     simple = ["int", "long", "string", "double", "Bool", "(vector int)", "(vector string)", "(Maybe int)", "(Maybe string)"]
-    lines = [f"{ns}.item {{m:#}} id:int name:m.0?string tags:m.1?(vector int) = {ns}.Item m;",
-             f"{ns}.block {{n:#}} id:int items:n*[int] = {ns}.Block n;"]
+    marks = ["True", "true", "Bool", "%True", f"({ns}.Block 2)", "int", "string"]
+    extra = " ".join(f"k{b}:m.{b}?{rng.choice(marks)}" for b in range(2, rng.randrange(3, 8)))
+    lines = [f"{ns}.block {{n:#}} id:int items:n*[int] = {ns}.Block n;",
+             f"{ns}.item {{m:#}} id:int name:m.0?string tags:m.1?(vector int) {extra} = {ns}.Item m;",
+             f"{ns}.nd n:# m:# k:# d:%(Dictionary %(Tuple int n)) v:(vector (tuple string n)) mb:(Maybe (tuple int m)) it:({ns}.item k) = {ns}.Nd;"]
     wides = []
     for i in range(rng.randrange(2, 5)):
         nf = rng.randrange(8, 21)
